@@ -17,27 +17,27 @@ ENV = dict(os.environ, GOFLAGS="-mod=mod", GOPROXY="off", GOSUMDB="off", GOTOOLC
 
 # per property: (world kind for the evidence text, race build?, quick runs, thorough runs, runs per process)
 PROPS = {
-    "C01": dict(runs=(1600, 40000), chunk=100),
-    "C02": dict(runs=(2400, 60000), chunk=150),
-    "C03": dict(runs=(2400, 60000), chunk=150),
-    "C04": dict(runs=(1600, 40000), chunk=100),
-    "C05": dict(runs=(1600, 40000), chunk=100),
-    "C06": dict(runs=(2400, 60000), chunk=150),
-    "C07": dict(runs=(2400, 60000), chunk=150),
-    "C08": dict(runs=(1600, 40000), chunk=100),
-    "C09": dict(runs=(480, 12000), chunk=30, race=True),
-    "C10": dict(runs=(1600, 40000), chunk=100),
-    "C11": dict(runs=(1600, 40000), chunk=100),
-    "C12": dict(runs=(1600, 40000), chunk=100),
-    "C13": dict(runs=(2400, 60000), chunk=150),
-    "C15": dict(runs=(1600, 40000), chunk=100),
-    "C17": dict(runs=(1600, 40000), chunk=100),
-    "C18": dict(runs=(2400, 60000), chunk=150),
-    "C19": dict(runs=(1600, 40000), chunk=100),
-    "C20": dict(runs=(1600, 40000), chunk=100),
+    "C01": dict(runs=(400000, 40000000), chunk=100),
+    "C02": dict(runs=(400000, 40000000), chunk=150),
+    "C03": dict(runs=(400000, 40000000), chunk=150),
+    "C04": dict(runs=(400000, 40000000), chunk=100),
+    "C05": dict(runs=(400000, 40000000), chunk=100),
+    "C06": dict(runs=(400000, 40000000), chunk=150),
+    "C07": dict(runs=(400000, 40000000), chunk=150),
+    "C08": dict(runs=(400000, 40000000), chunk=100),
+    "C09": dict(runs=(400000, 40000000), chunk=30, race=True),
+    "C10": dict(runs=(400000, 40000000), chunk=100),
+    "C11": dict(runs=(400000, 40000000), chunk=100),
+    "C12": dict(runs=(400000, 40000000), chunk=100),
+    "C13": dict(runs=(400000, 40000000), chunk=150),
+    "C15": dict(runs=(400000, 40000000), chunk=100),
+    "C17": dict(runs=(400000, 40000000), chunk=100),
+    "C18": dict(runs=(400000, 40000000), chunk=150),
+    "C19": dict(runs=(400000, 40000000), chunk=100),
+    "C20": dict(runs=(400000, 40000000), chunk=100),
     "SMOKE": dict(runs=(200, 2000), chunk=50),
 }
-BUDGET = {"quick": 55.0, "thorough": 780.0}  # seconds of exploration after the build
+BUDGET = {"quick": 25.0, "thorough": 600.0}  # seconds of exploration after the build: the run count is whatever fits
 LEVEL = collections.defaultdict(lambda: "exploration", {"C20": "fault_enumeration"})
 
 
